@@ -67,6 +67,70 @@ fn e1_units(_tier: Tier) -> Vec<Unit> {
             }
         }
     }));
+    units.push(Unit::new("IRQ/after-set_handler", 63, "for every vector 1-63: the handler is installed through the real TRAPA #0 set_handler call, then the vector table entry is changed again by a guest MOV.L, by a guest MOV.B to its low byte, by three host writes, or not at all, then the interrupt is accepted (also: accepted once, RTE, entry rewritten, accepted again): PC is loaded from the vector entry as it stands in memory at the moment of acceptance", |ctx, chunk| {
+        let v = chunk as u32 + 1;
+        let p0 = dom::CODE_RAM + 0x40;
+        let a = 0x00ff_c400u32 + 0x10 * v; // installed by set_handler
+        let b = 0x0041_0400u32 + 0x10 * v; // stored over it afterwards
+        let blk = 0x00ff_e900u32;
+        let enc = |ctx: &Ctx, n: &str, f: Fields| ctx.isa.encode(ctx.isa.row(n), &f);
+        let st_l = enc(ctx, "MOV.L ERs,@ERd", Fields { rs: 3, ra: 2, ..Default::default() });
+        let st_b = enc(ctx, "MOV.B Rs,@ERd", Fields { rs: 11, ra: 4, ..Default::default() });
+        let rte = enc(ctx, "RTE", Fields::default());
+        for variant in 0..5usize {
+            // ---- set_handler through the real gate (its own effects are C14's subject: accepted as they are)
+            let mut c = Case::new(p0, &[0x57, 0x00]);
+            c.er = dom::background_regs();
+            c.er[0] = 113;
+            c.er[1] = blk;
+            c.er[2] = 4 * v;
+            c.er[3] = 0x5a00_0000 | b;
+            c.er[4] = 4 * v + 3;
+            c.er[5] = 0x0041_7770;
+            c.er[7] = 0x00ff_e700;
+            c.ccr = 0x00;
+            let code = c.code;
+            ctx.m.poke_bytes(p0, &code);
+            ctx.m.poke_bytes(blk, &v.to_be_bytes());
+            ctx.m.poke_bytes(blk + 4, &a.to_be_bytes());
+            c.code_sticky = true;
+            let act = ctx.execute(&c);
+            ctx.st.cases += 1;
+            let written: Vec<u32> = ctx.wlog_all();
+            for x in written.iter() {
+                ctx.m.mark_dirty(*x);
+                ctx.m.accept(*x);
+            }
+            if !matches!(act, crate::hv::e1::Actual::Ok(_)) {
+                ctx.custom_violation("e1", format!("set_handler({}, {:08x}) did not complete: {:?}", v, a, act), c.to_json(), json!(null), json!(null));
+                ctx.m.restore();
+                continue;
+            }
+            // ---- the rest in lock step with the reference (which reads the vector from memory when the request is accepted)
+            let mut init = Case::new(p0 + 2, &[]);
+            init.code_len = 0;
+            init.code_sticky = true;
+            init.er = c.er;
+            init.ccr = 0x00;
+            let acts: Vec<Act> = match variant {
+                0 => vec![Act::exec(&st_l, None), Act::Irq(v as u8)],
+                1 => vec![Act::exec(&st_b, None), Act::Irq(v as u8)],
+                2 => vec![Act::Host(4 * v + 1, (b >> 16) as u8), Act::Host(4 * v + 2, (b >> 8) as u8), Act::Host(4 * v + 3, b as u8), Act::Irq(v as u8)],
+                3 => vec![Act::Irq(v as u8)],
+                _ => vec![Act::Irq(v as u8), Act::exec(&rte, None), Act::exec(&st_l, None), Act::Irq(v as u8)],
+            };
+            let n = acts.len();
+            let mut k = 0usize;
+            ctx.run_seq_body(&init, acts[0], n, &mut |_o: &StepObs| {
+                k += 1;
+                if k < n {
+                    Next::Continue(acts[k])
+                } else {
+                    Next::Stop
+                }
+            });
+        }
+    }));
     units.push(Unit::new("IRQ/T", 63, "interrupt vectors 1-63 x all 128 CCR values with I clear x 4 vector contents x 36 stack pointers x 3 interrupted PCs", |ctx, chunk| {
         let v = chunk as u8 + 1;
         for &h in HANDLERS.iter() {
